@@ -73,6 +73,12 @@ def afNew (s : Slice) : R Slice := do
   assertR (!s.bytes.isEmpty) "assert!(!buf.is_empty())"
   pure s
 
+/-- `StreamInfo::es_info_length()`: the 12-bit length in bytes 3-4 of a stream entry -/
+def esInfoLen (s : Slice) : R Nat := do
+  let d3 ← byteAt s.bytes 3
+  let d4 ← byteAt s.bytes 4
+  pure (((d3 &&& 0b0000_1111) <<< 8) ||| d4)
+
 /-- panics compare equal whatever their message: `x.erase = y.erase` is "same value, or both panic" -/
 def erase {α : Type} : R α → R α
   | .ok a => .ok a
